@@ -1,2 +1,2 @@
 #!/bin/sh
-cd /verif && exec python3-vt -m props.replay_c13 block matrix 'Block X\n -9223372036854775808 -9223372036854775808 10.0\n -9223372036854775808 -9223372036854775808 11.0\n'
+cd /verif && exec python3-vt -m props.replay_c13 block matrix 'Block X\n 1 1152921504606846976 10.0\n 1 18014398509481984 11.0\n'
